@@ -1,20 +1,27 @@
 package c15
 
 import (
+	"bytes"
 	"fmt"
 	"math/big"
 	"os"
+	"sort"
 	"strings"
 	"syscall"
 	"testing"
 	"time"
 
+	"github.com/idena-network/idena-go/blockchain/attachments"
 	"github.com/idena-network/idena-go/blockchain/fee"
 	"github.com/idena-network/idena-go/blockchain/types"
 	"github.com/idena-network/idena-go/blockchain/validation"
 	"github.com/idena-network/idena-go/common"
+	"github.com/idena-network/idena-go/common/math"
 	"github.com/idena-network/idena-go/core/appstate"
 	"github.com/idena-network/idena-go/core/state"
+	"github.com/idena-network/idena-go/vm/env"
+	"github.com/idena-network/idena-go/vm/wasm"
+	"github.com/shopspring/decimal"
 	"pgregory.net/rapid"
 
 	"verifharness/internal/evid"
@@ -37,12 +44,145 @@ func TestMain(m *testing.M) {
 }
 
 func (p *prog) copyOf(name string) *sim.Replica {
-	r := &sim.Replica{W: p.w, Name: name, Key: p.A.Key, Addr: p.A.Addr, DB: sim.CopyDB(p.A.DB), Ipfs: p.A.Ipfs, Loc: time.UTC}
+	r := &sim.Replica{W: p.w, Name: name, Key: p.A.Key, Addr: p.A.Addr, DB: sim.CopyDB(p.A.DB), Ipfs: p.A.Ipfs, Loc: p.buildLoc}
 	if err := r.Start(); err != nil {
 		p.t.Fatalf("start copy: %v", err)
 	}
 	r.Cfg.IsDebug = true
 	return r
+}
+
+// HOST TIME ZONES. The copies that build the blocks run under one host time zone, the main replica (the second node that
+// validates and inserts every block) under another one; sim.Replica switches time.Local around every piece of a replica's
+// work. Whatever a contract execution derives from the host zone (a rendered time in a failure text is part of the receipt)
+// then shows as a block the second node refuses.
+var hostZones = []*time.Location{time.UTC, time.FixedZone("UTC+14", 14*3600), time.FixedZone("UTC-12", -12*3600), time.FixedZone("UTC+9", 9*3600),
+	time.FixedZone("UTC+5:45", 5*3600+45*60), time.FixedZone("UTC-3:30", -(3*3600 + 30*60))}
+
+// drawZones: 1 program in 10 keeps both nodes on UTC; otherwise the second node's zone differs from the builder's
+// (builder on UTC - the usual server setting - in 3 of 10, a drawn zone in 6 of 10).
+func (p *prog) drawZones() (builder, second *time.Location) {
+	k := p.draw("hostZones", 10)
+	if k == 0 {
+		return time.UTC, time.UTC
+	}
+	b := 0
+	if k > 3 {
+		b = p.draw("builderZone", len(hostZones))
+	}
+	v := (b + 1 + p.draw("secondNodeZone", len(hostZones)-1)) % len(hostZones)
+	return hostZones[b], hostZones[v]
+}
+
+// receiptsUnder executes the block's transactions on a fresh check state of the main replica's head with the host time
+// zone set to loc (diagnosis of a refusal).
+func (p *prog) receiptsUnder(loc *time.Location, b *types.Block) []*types.TxReceipt {
+	prev := time.Local
+	if prev != loc {
+		time.Local = loc
+	}
+	defer func() {
+		if time.Local != prev {
+			time.Local = prev
+		}
+	}()
+	cs, err := p.A.AppState.ForCheck(p.A.Chain.Head.Height())
+	if err != nil {
+		return nil
+	}
+	recs, err := p.A.Chain.VerifProcessTxs(cs, b.Body.Transactions, b.Header)
+	if err != nil {
+		return nil
+	}
+	return recs
+}
+
+// zoneDependence: "" or the first receipt of the block that differs between an execution under the builder's host time
+// zone and one under the second node's.
+func (p *prog) zoneDependence(b *types.Block) string {
+	if p.buildLoc == p.A.Loc {
+		return ""
+	}
+	rb, rv := p.receiptsUnder(p.buildLoc, b), p.receiptsUnder(p.A.Loc, b)
+	if rb == nil || len(rb) != len(rv) {
+		return ""
+	}
+	for i := range rb {
+		x, _ := rb[i].ToBytes()
+		y, _ := rv[i].ToBytes()
+		if string(x) != string(y) {
+			return fmt.Sprintf("receipt #%d (method %q, success=%v) depends on the HOST TIME ZONE of the executing node: under %s its error is %q, under %s it is %q",
+				i, rb[i].Method, rb[i].Success, p.buildLoc, fmt.Sprint(rb[i].Error), p.A.Loc, fmt.Sprint(rv[i].Error))
+		}
+	}
+	return ""
+}
+
+// PROCESS-WIDE CONSTANTS. The repository hands out shared *big.Int values (common.Big0 is what every getter returns for
+// a missing balance / stake, and what BurnAll stores as the balance of a contract). A state transition that writes INTO
+// one of them (an in-place Add on a balance object that happens to be the shared zero) changes "zero" for the whole
+// process: coins out of nowhere in every later block. Checked after every block built or inserted and after every step;
+// a poisoned constant is reported at once, and repaired so that the shrinker works in a sane process.
+var sharedConstants = []struct {
+	name string
+	v    *big.Int
+	want *big.Int
+}{
+	{"common.Big0", common.Big0, nil}, {"common.Big1", common.Big1, nil}, {"common.Big2", common.Big2, nil}, {"common.Big3", common.Big3, nil},
+	{"common.Big32", common.Big32, nil}, {"common.Big256", common.Big256, nil}, {"common.Big257", common.Big257, nil}, {"common.DnaBase", common.DnaBase, nil},
+	{"fee.MinFeePerGas", fee.MinFeePerGas, nil},
+}
+
+func init() {
+	for i := range sharedConstants {
+		sharedConstants[i].want = new(big.Int).Set(sharedConstants[i].v)
+	}
+}
+
+// poisonedConstants lists the shared constants that no longer hold their value, and restores them.
+func poisonedConstants() []string {
+	var bad []string
+	for _, c := range sharedConstants {
+		if c.v.Cmp(c.want) != 0 {
+			bad = append(bad, fmt.Sprintf("%s = %v (must be %v)", c.name, c.v, c.want))
+			c.v.Set(c.want)
+		}
+	}
+	return bad
+}
+
+func (p *prog) constantsIntact(where func() string) {
+	if bad := poisonedConstants(); len(bad) > 0 {
+		evid.Count("constants.poisoned")
+		p.t.Fatalf("a process-wide constant was written into: %s after %s\n  (a state transition added in place into a shared *big.Int; from here on every balance / stake read that returns the shared value - missing accounts, identities without stake, a contract whose balance was burnt - carries that amount in this process: coins from nowhere, and a node that executes the block twice computes two different roots)",
+			strings.Join(bad, ", "), where())
+	}
+}
+
+// propose / addBlock: the replica's block building / insertion followed by the check of the process-wide constants.
+func (p *prog) propose(r *sim.Replica) *types.Block {
+	b := r.Propose().Block
+	p.constantsIntact(func() string { return fmt.Sprintf("replica %q built %s", r.Name, p.txList(b)) })
+	return b
+}
+
+func (p *prog) addBlock(r *sim.Replica, b *types.Block) error {
+	err := r.AddBlock(b)
+	p.constantsIntact(func() string { return fmt.Sprintf("replica %q executed %s (result: %v)", r.Name, p.txList(b), err) })
+	return err
+}
+
+func (p *prog) txList(b *types.Block) string {
+	d := fmt.Sprintf("block %d with %d txs", b.Height(), len(b.Body.Transactions))
+	for i, x := range b.Body.Transactions {
+		from, _ := types.Sender(x)
+		to := "-"
+		if x.To != nil {
+			to = p.w.Name(*x.To)
+		}
+		d += fmt.Sprintf("\n    #%d %s %s -> %s amount=%v nonce=%d", i, sim.TxTypeNames[x.Type], p.w.Name(from), to, x.Amount, x.AccountNonce)
+	}
+	return d
 }
 
 // plainBlocks lets the proposer build n blocks without transactions (moves the height).
@@ -51,8 +191,8 @@ func (p *prog) plainBlocks(n int) {
 		if i > 0 {
 			p.w.Advance(10 * time.Second)
 		}
-		b := p.A.Propose().Block
-		if err := p.A.AddBlock(b); err != nil {
+		b := p.propose(p.A)
+		if err := p.addBlock(p.A, b); err != nil {
 			p.t.Fatalf("plain block refused: %v", err)
 		}
 	}
@@ -75,8 +215,8 @@ func (p *prog) fund(op *opSpec) {
 		p.plainBlocks(1)
 		return
 	}
-	b := c.Propose().Block
-	if err := p.A.AddBlock(b); err != nil {
+	b := p.propose(c)
+	if err := p.addBlock(p.A, b); err != nil {
 		p.t.Fatalf("block with a SendTx refused: %v", err)
 	}
 	evid.Count("step.fund")
@@ -144,8 +284,8 @@ func (p *prog) spreadNonces() {
 			}
 		}
 	}
-	b := c.Propose().Block
-	if err := p.A.AddBlock(b); err != nil {
+	b := p.propose(c)
+	if err := p.addBlock(p.A, b); err != nil {
 		p.t.Fatalf("block of self-transfers refused: %v", err)
 	}
 }
@@ -423,6 +563,275 @@ func (p *prog) drainPrefix(op *opSpec, tx *types.Transaction) *prefixItem {
 	return &prefixItem{tx: stx, shape: "drain"}
 }
 
+// futureAddr: the address a deployment will create (embedded: hash(sender, epoch, nonce); WASM: hash(code hash, args,
+// attachment nonce)); false if the payload is no deployment attachment.
+func futureAddr(tx *types.Transaction, sender common.Address) (common.Address, bool) {
+	att := attachments.ParseDeployContractAttachment(tx)
+	if att == nil {
+		return common.Address{}, false
+	}
+	if len(att.Code) > 0 {
+		return wasm.CreateContractAddr(tx), true
+	}
+	return env.ComputeContractAddr(tx, sender), true
+}
+
+// namedAddrs: the 20-byte arguments of a contract tx (destinations it may pay, addresses it may store).
+func namedAddrs(tx *types.Transaction) []common.Address {
+	var args [][]byte
+	switch tx.Type {
+	case types.DeployContractTx:
+		if att := attachments.ParseDeployContractAttachment(tx); att != nil {
+			args = att.Args
+		}
+	case types.CallContractTx:
+		if att := attachments.ParseCallContractAttachment(tx); att != nil {
+			args = att.Args
+		}
+	case types.TerminateContractTx:
+		if att := attachments.ParseTerminateContractAttachment(tx); att != nil {
+			args = att.Args
+		}
+	}
+	var res []common.Address
+	for _, a := range args {
+		if len(a) == common.AddressLength {
+			var x common.Address
+			x.SetBytes(a)
+			res = append(res, x)
+		}
+	}
+	return res
+}
+
+// closing: steps that close a life cycle - payout, burn of the remainder, drop of the contract. What comes after them in
+// the same block meets a contract that has just paid out / burnt its balance / gone, so they get followers more often.
+func closing(op *opSpec) bool {
+	return op.op == "terminate" || op.method == "finishVoting" || op.method == "refund" || op.method == "push"
+}
+
+// drawPrefund: PRE-FUNDED FUTURE CONTRACT ADDRESS, same block. The address of a deployment is known in advance, so
+// anybody can pay to it before the contract exists. A SendTx crediting the address the deployment under test will create
+// is put in front of it: sent by another sender whose nonce lies below, or by the deployer himself right before the
+// deployment (the deployment then carries the next nonce). Call it after the prefix was drawn and before the tx is built.
+func (p *prog) drawPrefund(op *opSpec, prefix []*prefixItem) *prefixItem {
+	s := p.A.ReadState()
+	busy := map[common.Address]bool{}
+	used := map[uint32]bool{}
+	for _, it := range prefix {
+		from, _ := types.Sender(it.tx)
+		busy[from] = true
+		used[it.tx.AccountNonce] = true
+	}
+	top := p.nextNonce(op.sender) + uint32(op.nonceOffset)
+	var others []*sim.Actor
+	for _, a := range p.senders {
+		if n := p.nextNonce(a); a.Idx != op.sender.Idx && !busy[a.Addr] && n < top && !used[n] {
+			others = append(others, a)
+		}
+	}
+	amount := sim.Dna(int64(1 + p.draw("prefundDna", 800)))
+	if p.chance("prefundTiny", 15) {
+		amount = big.NewInt(int64(1 + p.draw("prefundWei", 1000)))
+	}
+	dummy := func(nonce uint32) *types.Transaction {
+		return &types.Transaction{Type: op.typ, Epoch: s.State.Epoch(), AccountNonce: nonce, Payload: op.payload}
+	}
+	if len(others) > 0 && (op.pinNonce || p.chance("prefundByAnother", 50)) {
+		addr, ok := futureAddr(dummy(top), op.sender.Addr)
+		if !ok {
+			return nil
+		}
+		a := others[p.draw("prefundFrom", len(others))]
+		return &prefixItem{tx: p.mkSend(a, addr, amount, 0), shape: "prefund-future-address"}
+	}
+	if op.pinNonce {
+		return nil
+	}
+	addr, ok := futureAddr(dummy(top+1), op.sender.Addr)
+	if !ok {
+		return nil
+	}
+	it := &prefixItem{tx: p.mkSend(op.sender, addr, amount, op.nonceOffset), shape: "prefund-future-address-by-the-deployer"}
+	op.nonceOffset++
+	return it
+}
+
+// prefundEarlier: PRE-FUNDED FUTURE CONTRACT ADDRESS, earlier block. Another sender pays to the address the deployment
+// will create; the block is inserted, then the experiment runs as usual (the deployment keeps its nonce: no txs of the
+// deployer are put in front of it).
+func (p *prog) prefundEarlier(op *opSpec) {
+	s := p.A.ReadState()
+	addr, ok := futureAddr(&types.Transaction{Type: op.typ, Epoch: s.State.Epoch(), AccountNonce: p.nextNonce(op.sender), Payload: op.payload}, op.sender.Addr)
+	if !ok {
+		return
+	}
+	var others []*sim.Actor
+	for _, a := range p.senders {
+		if a.Idx != op.sender.Idx {
+			others = append(others, a)
+		}
+	}
+	a := others[p.draw("prefundEarlierFrom", len(others))]
+	c := p.copyOf("prefund")
+	if err := c.Pool.AddExternalTxs(validation.MempoolTx, p.mkSend(a, addr, sim.Dna(int64(1+p.draw("prefundEarlierDna", 800))), 0)); err != nil {
+		return
+	}
+	b := p.propose(c)
+	if err := p.addBlock(p.A, b); err != nil {
+		p.t.Fatalf("block with a SendTx to a future contract address refused: %v", err)
+	}
+	op.pinNonce = true
+	p.w.Advance(time.Duration(10+p.draw("prefundEarlierDt", 20)) * time.Second)
+	evid.Count("step.prefund-future-address-in-an-earlier-block")
+}
+
+// drawFollowers: FOLLOWERS. 1-3 transactions that come AFTER the tx under test in its block: SendTxs crediting the
+// contract it ran on (for a deployment: the address it creates) / an address named in its arguments / its sender / an
+// actor, further steps on the same contract (its table, state-aware, wild - calls carrying an amount credit the contract
+// before the VM runs), steps on other live contracts (a lock watching the voting that has just been finished, a wallet
+// paying to the contract that has just been dropped). The builder orders by nonce: followers are sent by the sender under
+// test itself (consecutive nonces) or by senders whose nonce lies above, pairwise different. Steps that close a life
+// cycle (termination, finishVoting, refund, push) get followers in 70% of the cases, the others in 20%.
+func (p *prog) drawFollowers(op *opSpec, tx *types.Transaction, prefix []*prefixItem) []*prefixItem {
+	odds := 20
+	if closing(op) {
+		odds = 70
+	}
+	if !p.chance("followers", odds) {
+		return nil
+	}
+	want := 1 + p.draw("followerCount", 3)
+	savedLast, savedCtx, savedSelf := p.last, p.ctxAddrs, p.selfPicked
+	defer func() { p.last, p.ctxAddrs, p.selfPicked = savedLast, savedCtx, savedSelf }()
+	busy := map[common.Address]bool{}
+	for _, it := range prefix {
+		from, _ := types.Sender(it.tx)
+		busy[from] = true
+	}
+	top := tx.AccountNonce
+	used := map[uint32]bool{}
+	offsets := map[int]int{}
+	nonceOf := func(a *sim.Actor) (uint32, bool) {
+		if a.Idx == op.sender.Idx {
+			n := top + 1 + uint32(offsets[a.Idx])
+			return n, !used[n]
+		}
+		n := p.nextNonce(a) + uint32(offsets[a.Idx])
+		return n, !busy[a.Addr] && n > top && !used[n]
+	}
+	place := func(a *sim.Actor) int {
+		n, _ := nonceOf(a)
+		used[n] = true
+		offsets[a.Idx]++
+		return int(n - p.nextNonce(a))
+	}
+	admitted := func() []*sim.Actor {
+		var res []*sim.Actor
+		for _, a := range p.senders {
+			if _, ok := nonceOf(a); ok {
+				res = append(res, a)
+			}
+		}
+		return res
+	}
+	var caddr *common.Address
+	if op.target != nil {
+		caddr = &op.target.addr
+	} else if a, ok := futureAddr(tx, op.sender.Addr); ok {
+		caddr = &a
+	}
+	named := namedAddrs(tx)
+	credit := func(from *sim.Actor, to common.Address, amount *big.Int, role string) *prefixItem {
+		off := place(from)
+		return &prefixItem{tx: p.mkSend(from, to, amount, off), shape: "follower-send-to-" + role}
+	}
+	var items []*prefixItem
+	for tries := 0; len(items) < want && tries < 6*want; tries++ {
+		k := p.draw("followerShape", 20)
+		if k >= 8 && k < 15 && op.target == nil {
+			k = 0 // a deployment: its contract is not known to the harness yet, pay to its address instead
+		}
+		switch {
+		case k < 8:
+			cand := admitted()
+			if len(cand) == 0 {
+				continue
+			}
+			from := cand[p.draw("followerSendFrom", len(cand))]
+			to, role := p.actorAddr("followerSendToActor"), "an-actor"
+			switch j := p.draw("followerSendTo", 10); {
+			case j < 6 && caddr != nil:
+				to, role = *caddr, "the-contract"
+			case j < 8 && len(named) > 0:
+				to, role = named[p.draw("followerSendToNamed", len(named))], "a-named-address"
+			case j < 9:
+				to, role = op.sender.Addr, "the-sender"
+			}
+			amount := sim.Dna(int64(1 + p.draw("followerSendDna", 50)))
+			if p.chance("followerSendTiny", 20) {
+				amount = []*big.Int{big.NewInt(1), p.dust(), new(big.Int).Add(p.dust(), big.NewInt(1))}[p.draw("followerSendTinyAmount", 3)]
+			}
+			items = append(items, credit(from, to, amount, role))
+		default:
+			var pop *opSpec
+			shape := "follower-same-contract"
+			if k < 15 {
+				p.selfPicked = false
+				if op.target.dead {
+					pop = p.wildStep(op.target)
+				} else {
+					pop = p.chainStep(op.target)
+				}
+			} else {
+				var others []*contract
+				for _, c := range p.contracts {
+					if !c.dead && c != op.target {
+						others = append(others, c)
+					}
+				}
+				if len(others) == 0 {
+					continue
+				}
+				c := others[p.draw("followerContract", len(others))]
+				p.selfPicked = false
+				if p.chance("followerSmart", 85) {
+					pop = p.smartStep(c)
+				} else {
+					pop = p.wildStep(c)
+				}
+			}
+			if pop.special == "fund" && pop.target != nil && pop.amount != nil {
+				if _, ok := nonceOf(pop.sender); ok {
+					role := "another-contract"
+					if pop.target == op.target {
+						role = "the-contract"
+					}
+					items = append(items, credit(pop.sender, pop.target.addr, pop.amount, role))
+				}
+				continue
+			}
+			if pop.special != "" || pop.target == nil {
+				continue
+			}
+			if pop.target != op.target {
+				shape = "follower-other-contract"
+			}
+			if _, ok := nonceOf(pop.sender); !ok {
+				cand := admitted()
+				if len(cand) == 0 {
+					continue
+				}
+				pop.sender = cand[p.draw("followerSender", len(cand))]
+			}
+			pop.nonceOffset = place(pop.sender)
+			ftx, _ := p.build(pop)
+			items = append(items, &prefixItem{tx: ftx, op: pop, shape: shape})
+		}
+	}
+	return items
+}
+
 // noteSuccess updates the harness' notes after a successful contract tx (steering only).
 func (p *prog) noteSuccess(op *opSpec, rec *types.TxReceipt, makeLast bool) {
 	if op.created != nil {
@@ -455,12 +864,28 @@ func (p *prog) experiment(op *opSpec) {
 	fpg, netSize := nz(pre.State.FeePerGas()), pre.ValidatorsCache.NetworkSize()
 	var prefix []*prefixItem
 	drain := op.presetPrefix == nil && !op.pinNonce && fpg.Sign() > 0 && !p.chance("noDrainShape", 96)
+	// pre-funded future contract address: 30% of the ordinary deployments are preceded by a SendTx that credits the address
+	// they will create - in an earlier block (1 in 3) or earlier in the same block
+	prefund := ""
+	if op.op == "deploy" && op.presetPrefix == nil && !drain && p.chance("prefundFutureAddress", 30) {
+		prefund = []string{"same-block", "same-block", "earlier-block"}[p.draw("prefundWhen", 3)]
+		if prefund == "earlier-block" {
+			p.prefundEarlier(op)
+			pre = p.A.ReadState()
+			fpg, netSize = nz(pre.State.FeePerGas()), pre.ValidatorsCache.NetworkSize()
+		}
+	}
 	if op.presetPrefix != nil {
 		prefix = op.presetPrefix
 	} else if drain {
 		op.nonceOffset = 1
 	} else {
 		prefix = p.drawPrefix(op)
+		if prefund == "same-block" {
+			if it := p.drawPrefund(op, prefix); it != nil {
+				prefix = append(prefix, it)
+			}
+		}
 	}
 	tx, gasClass := p.build(op)
 	if drain {
@@ -469,6 +894,11 @@ func (p *prog) experiment(op *opSpec) {
 		} else {
 			return
 		}
+	}
+	// followers: txs that come after the tx under test in its block (see drawFollowers)
+	var followers []*prefixItem
+	if op.presetPrefix == nil && !drain {
+		followers = p.drawFollowers(op, tx, prefix)
 	}
 	evid.Eval()
 	pc := payClass(op, p.minStake(), p.balance(op.sender.Addr))
@@ -506,7 +936,7 @@ func (p *prog) experiment(op *opSpec) {
 		evid.Count("refused." + err.Error()[:min(len(err.Error()), 40)] + ".gas=" + gasClass)
 		return
 	}
-	b1 := with.Propose().Block
+	b1 := p.propose(with)
 	n1 := len(b1.Body.Transactions)
 	if n1 == 0 || b1.Body.Transactions[n1-1].Hash() != tx.Hash() {
 		included := false
@@ -529,7 +959,7 @@ func (p *prog) experiment(op *opSpec) {
 			t.Fatalf("HARNESS: the second pool refuses a prefix tx the first accepted: %v", err)
 		}
 	}
-	b0 := without.Propose().Block
+	b0 := p.propose(without)
 	if len(b0.Body.Transactions) != n1-1 {
 		evid.Count("block." + shape + ".reference-differs")
 		return
@@ -541,6 +971,58 @@ func (p *prog) experiment(op *opSpec) {
 		}
 	}
 	prefixTxs := b0.Body.Transactions
+	// FOLLOWERS: the same proposer builds, at the same instant, the block in which further txs come after the tx under test;
+	// it must start with the very txs of the block that ends with the tx under test. That block is what the chain adopts.
+	final, full := b1, (*sim.Replica)(nil)
+	var acceptedF []*prefixItem
+	if len(followers) > 0 {
+		full = p.copyOf("full")
+		for _, it := range accepted {
+			if err := full.Pool.AddExternalTxs(validation.MempoolTx, it.tx); err != nil {
+				t.Fatalf("HARNESS: the third pool refuses a prefix tx the first accepted: %v", err)
+			}
+		}
+		if err := full.Pool.AddExternalTxs(validation.MempoolTx, tx); err != nil {
+			t.Fatalf("HARNESS: the third pool refuses the tx under test the first accepted: %v", err)
+		}
+		for _, it := range followers {
+			if err := full.Pool.AddExternalTxs(validation.MempoolTx, it.tx); err == nil {
+				acceptedF = append(acceptedF, it)
+			} else {
+				evid.Count("block.follower-tx-refused-by-pool." + it.shape)
+			}
+		}
+		extends := false
+		if len(acceptedF) > 0 {
+			b2 := p.propose(full)
+			extends = len(b2.Body.Transactions) > n1
+			for i := 0; extends && i < n1; i++ {
+				extends = b2.Body.Transactions[i].Hash() == b1.Body.Transactions[i].Hash()
+			}
+			if extends {
+				final = b2
+			} else {
+				evid.Count("block.followers.none-included-or-other-order")
+			}
+		}
+		if !extends {
+			full = nil
+		}
+	}
+	followerTxs := final.Body.Transactions[n1:]
+	itemOf := func(x *types.Transaction) *prefixItem {
+		for _, it := range accepted {
+			if it.tx.Hash() == x.Hash() {
+				return it
+			}
+		}
+		for _, it := range acceptedF {
+			if it.tx.Hash() == x.Hash() {
+				return it
+			}
+		}
+		return nil
+	}
 	gasLimit := gasLimitOf(netSize, fpg, tx)
 	mid, err := checkStateAfter(with, prefixTxs, b1.Header)
 	if err != nil {
@@ -572,12 +1054,27 @@ func (p *prog) experiment(op *opSpec) {
 			}
 			d += fmt.Sprintf("\n  preceded in the block by #%d: %s %s -> %s amount=%v nonce=%d (%s)", i, sim.TxTypeNames[x.Type], p.w.Name(from), to, x.Amount, x.AccountNonce, what)
 		}
+		for i, x := range followerTxs {
+			from, _ := types.Sender(x)
+			to, what := "-", ""
+			if x.To != nil {
+				to = p.w.Name(*x.To)
+			}
+			if it := itemOf(x); it != nil {
+				what = it.shape
+				if it.op != nil {
+					what += fmt.Sprintf(" %s %s method=%q args=%s", it.op.kind, it.op.op, it.op.method, it.op.argClass)
+				}
+			}
+			d += fmt.Sprintf("\n  followed in the block by #%d: %s %s -> %s amount=%v nonce=%d (%s)", n1+i, sim.TxTypeNames[x.Type], p.w.Name(from), to, x.Amount, x.AccountNonce, what)
+		}
+		d += fmt.Sprintf("\n  host time zones: builder %s, second replica %s", p.buildLoc, p.A.Loc)
 		return d
 	}
 	// A refusal "invalid receipt cid" of a block whose transactions do not execute to the same receipts every time is the
 	// recorded finding c15.same-block-store-writes-iterated-in-map-order (decided by re-executing the block's txs on fresh
 	// check states of the parent, which the main replica still holds at both refusal sites); any other refusal fails the case.
-	knownRefusal := func(who string, err error) bool {
+	knownRefusal := func(who string, blk *types.Block, err error) bool {
 		if !strings.Contains(err.Error(), "invalid receipt cid") {
 			return false
 		}
@@ -587,7 +1084,7 @@ func (p *prog) experiment(op *opSpec) {
 			if e != nil {
 				return false
 			}
-			recs, e := p.A.Chain.VerifProcessTxs(cs, b1.Body.Transactions, b1.Header)
+			recs, e := p.A.Chain.VerifProcessTxs(cs, blk.Body.Transactions, blk.Header)
 			if e != nil {
 				return false
 			}
@@ -607,20 +1104,46 @@ func (p *prog) experiment(op *opSpec) {
 		}
 		return false
 	}
-	if err := with.AddBlock(b1); err != nil {
-		if knownRefusal("its own builder", err) {
+	if err := p.addBlock(with, b1); err != nil {
+		if knownRefusal("its own builder", b1, err) {
 			return
 		}
 		t.Fatalf("block with the contract tx refused by its own builder: %v\n  tx: %s", err, blockDesc())
 	}
-	if err := without.AddBlock(b0); err != nil {
+	if err := p.addBlock(without, b0); err != nil {
 		t.Fatalf("block without the tx refused: %v", err)
 	}
-	if err := p.A.AddBlock(b1); err != nil {
-		if knownRefusal("a second replica", err) {
+	if full != nil {
+		if err := p.addBlock(full, final); err != nil {
+			if knownRefusal("its own builder", final, err) {
+				return
+			}
+			t.Fatalf("block in which %d txs follow the contract tx refused by its own builder: %v\n  tx: %s", len(followerTxs), err, blockDesc())
+		}
+	}
+	if err := p.addBlock(p.A, final); err != nil {
+		if knownRefusal("a second replica", final, err) {
 			return
 		}
+		if strings.Contains(err.Error(), "invalid receipt cid") {
+			if msg := p.zoneDependence(final); msg != "" {
+				t.Fatalf("block with the contract tx refused by a second replica that runs under another host time zone: %v\n  %s\n  tx: %s", err, msg, blockDesc())
+			}
+		}
 		t.Fatalf("block with the contract tx refused by a second replica: %v\n  tx: %s", err, blockDesc())
+	}
+	// the second node accepted the block under its own host time zone: receipts (incl. failure texts) agree
+	if p.buildLoc != p.A.Loc {
+		evid.Count("zone.block-accepted-under-another-host-zone")
+		failed := 0
+		for _, x := range final.Body.Transactions {
+			if r := p.A.Chain.GetReceipt(x.Hash()); r != nil && !r.Success {
+				failed++
+			}
+		}
+		if failed > 0 {
+			evid.Count("zone.block-with-failed-contract-tx-accepted-under-another-host-zone")
+		}
 	}
 	rec := with.Chain.GetReceipt(tx.Hash())
 	if rec == nil {
@@ -679,7 +1202,7 @@ func (p *prog) experiment(op *opSpec) {
 	if newCodes > 0 {
 		evid.Count(fmt.Sprintf("block.new-distinct-wasm-codes=%d", newCodes))
 	}
-	evid.Count(fmt.Sprintf("block.txs=%d", n1))
+	evid.Count(fmt.Sprintf("block.txs=%d", len(final.Body.Transactions)))
 	// same-contract chains: which (earlier step, step under test) pairs on one contract shared a block, with outcomes
 	chainLen := 0
 	crowdOf := map[string]map[int]bool{} // method -> senders whose earlier step with it succeeded
@@ -762,6 +1285,57 @@ func (p *prog) experiment(op *opSpec) {
 	}
 	if op.selfArg {
 		evid.Count(fmt.Sprintf("self-destination.%s.%s.%s.success=%v", op.kind, op.op, op.method, rec.Success))
+	}
+	// the contract address of the tx under test; did its execution set the contract's balance to zero (burn of the remainder)?
+	caddr := rec.ContractAddress
+	if tx.To != nil {
+		caddr = *tx.To
+	} else if a, ok := futureAddr(tx, op.sender.Addr); ok {
+		caddr = a
+	}
+	zeroed := false
+	if rec.Success {
+		had := new(big.Int).Set(c.midBal(caddr))
+		if tx.Type == types.CallContractTx {
+			had.Add(had, tx.AmountOrZero())
+		}
+		cls := "nothing"
+		if had.Sign() > 0 {
+			cls = "coins"
+			if op.op == "terminate" && (op.kind == "TimeLock" || op.kind == "Multisig") {
+				cls = "dust"
+			}
+		}
+		if b, ok := dry.w.balances[caddr]; ok && b.Sign() == 0 {
+			zeroed = true
+			evid.Count(fmt.Sprintf("burn.contract-balance-zeroed|%s|%s|held-%s", kindLabel, op.method, cls))
+		}
+		if op.op == "terminate" && had.Sign() > 0 {
+			// the termination met a contract that still held something (a wallet: dust, which it burns); refund-to-itself = the
+			// refunded half of the stake goes to the very address whose balance has just been burnt in the same execution
+			toItself := false
+			for _, a := range namedAddrs(tx) {
+				toItself = toItself || a == caddr
+			}
+			evid.Count(fmt.Sprintf("burn.termination-of-a-contract-holding-%s.refund-to-itself=%v", cls, toItself))
+		}
+	}
+	if op.op == "deploy" && c.midBal(caddr).Sign() > 0 {
+		// PRE-FUNDED ADDRESS: the deployment ran on an address that already held coins (the oracle above demands that they stay)
+		lang := "embedded"
+		if dry.isWasm {
+			lang = "wasm"
+		}
+		when := "earlier-block"
+		for _, x := range prefixTxs {
+			if x.To != nil && *x.To == caddr {
+				when = "same-block"
+			}
+		}
+		evid.Count(fmt.Sprintf("deploy.address-already-holds-coins.%s.%s.success=%v", lang, when, rec.Success))
+	}
+	if full != nil {
+		p.checkFollowers(c, op, final, n1, with, full, itemOf, prefixFee, caddr, zeroed, blockDesc)
 	}
 
 	// --- bookkeeping and evidence ---
@@ -852,6 +1426,106 @@ func (p *prog) experiment(op *opSpec) {
 	}
 }
 
+// checkFollowers judges the block in which further txs FOLLOW the tx under test (built by the same proposer at the same
+// instant, accepted by its builder and by the second node) against the block that ends with the tx under test:
+// (a) what comes after a transaction cannot change its outcome: the receipts of the tx under test and of everything before
+// it are byte-identical in both blocks; (b) value: the followers move coins, pay fees (partly burnt) and may burn
+// explicitly, they never create any - ledger total after the block with followers = total after the block without them
+// - burnt share of the followers' fees, exactly, unless a follower is a successful burning method (then: not more);
+// (c) no negative balance / stake.
+func (p *prog) checkFollowers(c *txCase, op *opSpec, final *types.Block, n1 int, with, full *sim.Replica, itemOf func(*types.Transaction) *prefixItem,
+	prefixFee *big.Int, caddr common.Address, zeroed bool, blockDesc func() string) {
+	t := p.t
+	for i, x := range final.Body.Transactions[:n1] {
+		r1, r2 := with.Chain.GetReceipt(x.Hash()), full.Chain.GetReceipt(x.Hash())
+		if (r1 == nil) != (r2 == nil) {
+			t.Fatalf("tx #%d has a receipt in one of the two blocks only\n  tx: %s", i, blockDesc())
+		}
+		if r1 == nil {
+			continue
+		}
+		b1, _ := r1.ToBytes()
+		b2, _ := r2.ToBytes()
+		if !bytes.Equal(b1, b2) {
+			t.Fatalf("the receipt of tx #%d changes when further txs follow it in the block: success=%v gasUsed=%d error=%v events=%d vs success=%v gasUsed=%d error=%v events=%d\n  tx: %s",
+				i, r1.Success, r1.GasUsed, r1.Error, len(r1.Events), r2.Success, r2.GasUsed, r2.Error, len(r2.Events), blockDesc())
+		}
+	}
+	txFee := new(big.Int).Add(fee.CalculateFee(c.netSize, c.fpg, c.tx), nz(c.rec.GasCost))
+	before := new(big.Int).Add(nz(prefixFee), txFee)
+	after := new(big.Int).Set(before)
+	burning, credited, dead := false, false, false
+	pairOut := func(ok bool) string {
+		if ok {
+			return "ok"
+		}
+		return "fail"
+	}
+	for _, x := range final.Body.Transactions[n1:] {
+		after.Add(after, fee.CalculateFee(c.netSize, c.fpg, x))
+		it := itemOf(x)
+		shape, out := "?", "sent"
+		if it != nil {
+			shape = it.shape
+		}
+		if r := full.Chain.GetReceipt(x.Hash()); r != nil {
+			after.Add(after, nz(r.GasCost))
+			out = pairOut(r.Success)
+			if it != nil && it.op != nil && r.Success {
+				p.noteSuccess(it.op, r, false)
+				if mayBurn(it.op.kind, it.op.op, it.op.method) && !strings.HasPrefix(it.op.kind, "wasm:") {
+					burning = true
+				}
+			}
+		}
+		if x.To != nil && *x.To == caddr && x.AmountOrZero().Sign() > 0 && (x.Type == types.SendTx || x.Type == types.CallContractTx) {
+			credited = true
+		}
+		evid.Count("block.follower-tx." + shape)
+		evid.Count(fmt.Sprintf("follower|%s|%s:%s>%s:%s", c.kind, op.method, pairOut(c.rec.Success), shape, out))
+	}
+	if c.rec.Success && op.op == "terminate" {
+		dead = true
+	}
+	burnOf := func(f *big.Int) *big.Int {
+		return math.ToInt(decimal.NewFromBigInt(f, 0).Mul(decimal.NewFromFloat32(c.burnRate)))
+	}
+	burn := new(big.Int).Sub(burnOf(after), burnOf(before))
+	sf := takeSnap(full.ReadState())
+	missing := new(big.Int).Sub(c.with.total(), sf.total())
+	missing.Sub(missing, burn)
+	if missing.Sign() < 0 || !burning && missing.Sign() != 0 {
+		diffs := sim.DiffImages(sf.img, c.with.img, c.w.Name)
+		sort.Strings(diffs)
+		if len(diffs) > 40 {
+			diffs = diffs[:40]
+		}
+		t.Fatalf("ledger total after the block with the followers - after the block that ends with the tx under test = %v, expected -%v (burnt share of the followers' fees)%s; unexplained %v\n  tx: %s\n  state with the followers vs without them:\n    %s",
+			new(big.Int).Sub(sf.total(), c.with.total()), burn, map[bool]string{true: " or less (a follower burns explicitly)", false: " exactly"}[burning], new(big.Int).Neg(missing), blockDesc(), strings.Join(diffs, "\n    "))
+	}
+	for a := range sf.img.Accounts {
+		if sf.bal(a).Sign() < 0 || sf.cStake(a).Sign() < 0 {
+			t.Fatalf("negative balance / contract stake of %s after the block with the followers\n  tx: %s", c.w.Name(a), blockDesc())
+		}
+	}
+	for a := range sf.img.Identities {
+		if sf.idStake(a).Sign() < 0 {
+			t.Fatalf("negative stake of %s after the block with the followers\n  tx: %s", c.w.Name(a), blockDesc())
+		}
+	}
+	evid.Count("follower.blocks")
+	evid.Count(fmt.Sprintf("follower.txs=%d", len(final.Body.Transactions)-n1))
+	if credited {
+		evid.Count("follower.credit-to-the-contract")
+		if zeroed {
+			evid.Count("follower.credit-to-the-contract-whose-balance-the-tx-under-test-zeroed")
+		}
+		if dead {
+			evid.Count("follower.credit-to-the-contract-the-tx-under-test-dropped")
+		}
+	}
+}
+
 func (p *prog) describe(op *opSpec, tx *types.Transaction, gasClass string) string {
 	to := "-"
 	if tx.To != nil {
@@ -896,6 +1570,14 @@ func runProgramMode(t *rapid.T, profile string, chains bool) {
 		t.Fatalf("HARNESS: god cannot propose")
 	}
 	p := &prog{t: t, w: w, A: A, profile: profile, senders: w.Actors[1:params.NActors], knownCodes: map[common.Hash]bool{}, chainOdds: 8}
+	p.constantsIntact(func() string { return "an earlier case (before this program started)" })
+	// host time zones: the copies that build the blocks and the main replica that validates and inserts them
+	p.buildLoc, A.Loc = p.drawZones()
+	if p.buildLoc == A.Loc {
+		evid.Count("zone.program.second-node-in-the-builder's-zone")
+	} else {
+		evid.Count(fmt.Sprintf("zone.program.builder-%s.second-node-elsewhere", p.buildLoc))
+	}
 	monthJumpOdds := 1
 	if chains {
 		p.chainOdds, monthJumpOdds = 70, 5
@@ -955,6 +1637,11 @@ func runProgramMode(t *rapid.T, profile string, chains bool) {
 		default:
 			p.experiment(op)
 		}
+		step := i
+		p.constantsIntact(func() string {
+			return fmt.Sprintf("step %d of the program (%s %s %s)", step, op.kind, op.op, op.method)
+		})
+		evid.Count("constants.intact-after-step")
 		if j := rapid.IntRange(0, 99).Draw(t, "monthJump"); j >= 57 && j < 57+monthJumpOdds {
 			w.Advance(31 * 24 * time.Hour) // lets a pending voting go stale
 			evid.Count("step.month-jump")
